@@ -59,6 +59,7 @@ WORKLOADS = {
     "coro": ("w_coro.cpp", ()),
     "io_epoll": ("w_io.cpp", ("fdlayer", "uring")),
     "io_uring": ("w_io.cpp", ("fdlayer", "uring")),
+    "io_uring_flood": ("w_io.cpp", ("fdlayer", "uring")),
 }
 
 PROPS = {
@@ -509,6 +510,7 @@ PROPS = {
             B("w_io.cpp", "io_epoll", cfg="S17r", rt=("fdlayer", "uring"), quick=5, thorough=120, oracles=["c14.", "c07."] + RT_ALL),
             B("w_io.cpp", "io_uring", rt=("fdlayer", "uring"), quick=14, thorough=300, oracles=["c14.", "c07."] + RT_ALL),
             B("w_io.cpp", "io_uring", cfg="S17r", rt=("fdlayer", "uring"), quick=5, thorough=120, oracles=["c14.", "c07."] + RT_ALL),
+            B("w_io.cpp", "io_uring_flood", rt=("fdlayer", "uring"), quick=4, thorough=60, oracles=["c14.", "c07."] + RT_ALL),
         ],
         level_text=("io_epoll_context: the library's epoll code runs unmodified on the real kernel's epoll, eventfd and pipe objects (private "
                     "to the process, one sim thread at a time, hence deterministic); time is virtual: timerfd is an eventfd written by the "
@@ -533,9 +535,10 @@ PROPS = {
                     "read back through the harness's own descriptor after every operation). Extra fault: completion delay/reordering "
                     "(a ready request is left in flight); extra oracles: the user memory the kernel would read or write (iovec, buffer, "
                     "timespec) is alive at that moment, each ring mapping is unmapped exactly once with its own length, the ring fd is closed. "
-                    "Two defects found by this workload were confirmed on the real kernel with a native probe (findings/probes/) and fixed."),
-        level_note=("NOT covered: sockets/accept, IORING_OP_* beyond the seven listed, -EALREADY from ASYNC_CANCEL, full submission/completion "
-                    "rings (more than 256 unflushed or 512 pending requests), injected OS "
+                    "Two defects found by this workload were confirmed on the real kernel with a native probe (findings/probes/) and fixed. "
+                    "io_uring_flood: 40-600 reads parked concurrently on one idle pipe (around and beyond the 512 completion-queue entries, the surplus "
+                    "waiting in pendingIoQueue_), then every read is cancelled by 1-2 stopper threads: all must complete with done and run(stop) must return."),
+        level_note=("NOT covered: sockets/accept, IORING_OP_* beyond the seven listed, -EALREADY from ASYNC_CANCEL, injected OS "
                     "errors (the epoll read/write paths compare readv/writev results with -EAGAIN although libc returns -1/errno; error "
                     "reporting is therefore not exercised), EINTR from epoll_wait (run() documents no recovery and throws)."),
         real=["io_epoll_context (run loop, remote queue + eventfd wake-up, timers, read/write senders, cancellation)", "safe_file_descriptor, monotonic_clock",
